@@ -63,6 +63,8 @@ def run(tier: str) -> dict:
         os.chdir(scratch)
         try:
             for gi, (name, defs, kind) in enumerate(graphs(rng, tier)):
+                if rt.HANGS[0] >= 3:
+                    break
                 n = len(defs)
                 perms = [tuple(range(n))]
                 if n <= 3:
